@@ -24,6 +24,10 @@ var vNative struct {
 
 type vAssumeFailed struct{}
 
+var vHarnesses = map[string]func(){}
+
+func vRegister(name string, f func()) { vHarnesses[name] = f }
+
 func vLoad() {
 	if vNative.loaded {
 		return
